@@ -53,6 +53,7 @@ func (h *eventHeap) Pop() any {
 // ---- configuration (swarm) -------------------------------------------------------------
 
 type config struct {
+	corruptPct  int // per mille of messages that are followed by a corrupted copy (C19 runs)
 	n           int
 	stakes      []uint64
 	byz         []bool
@@ -122,6 +123,7 @@ type world struct {
 	global    uint64 // highest root height that exists
 	groups    []int  // partition group per node (all 0 = no partition)
 	held      []*event
+	signSeen  map[string]string // sign bytes -> meaning of the first message seen with them
 	adv       *adversary
 	truth     map[string]map[string]map[string]bool // pub -> view key -> payload hashes signed (replica votes)
 	blockSeq  int
@@ -222,6 +224,9 @@ func drawConfig(c *simkit.Ctx) config {
 	cfg.maxEvents = map[string]int{"quick": 2500, "thorough": 6000}[c.Tier]
 	if cfg.maxEvents == 0 {
 		cfg.maxEvents = 2500
+	}
+	if c.Prop == "C19" {
+		cfg.corruptPct = 40 + t.Intn(200)
 	}
 	return cfg
 }
@@ -551,6 +556,11 @@ func (w *world) send(from, to int, data []byte, desc string) {
 		}
 	}
 	w.push(&event{at: w.now() + lat, kind: "msg", to: to, from: from, data: data, desc: desc})
+	if !off && w.cfg.corruptPct > 0 && c.T.Chance(w.cfg.corruptPct, 1000) {
+		bad, kind := simkit.MutateBytes(c.T, data)
+		c.Fault("msg_corrupted_" + kind)
+		w.push(&event{at: w.now() + lat + time.Duration(c.T.Intn(w.cfg.phaseMS))*time.Millisecond, kind: "msg", to: to, from: from, data: bad, desc: desc + "(corrupted:" + kind + ")"})
+	}
 	if !off && w.cfg.dupPct > 0 && c.T.Chance(w.cfg.dupPct, 1000) {
 		c.Fault("msg_dup")
 		w.push(&event{at: w.now() + lat + time.Duration(c.T.Intn(w.cfg.phaseMS*2))*time.Millisecond, kind: "msg", to: to, from: from, data: data, desc: desc + "(dup)"})
@@ -570,6 +580,7 @@ func (w *world) handleEvent(e *event) {
 		if n.byz {
 			w.adv.observe(n, m, e.data)
 		}
+		w.monitorSignBytes(m)
 		err := w.safeHandle(n, m)
 		if err != nil {
 			c.Logf("n%d <- n%d %s REJECTED: %s", e.to, e.from, e.desc, trunc(err.Error(), 90))
